@@ -244,7 +244,7 @@ static CaseResult run_twin_case_impl(Runner& R, uint64_t case_seed, const std::s
                     s.peek = op.peek;
                 }
                 s.k = it.k;
-                B->apply(s, rtmp);
+                guarded_apply(B.get(), s, rtmp);
                 if (s.kind == FND)
                 {
                     rb.keys.push_back(it.k);
@@ -255,7 +255,7 @@ static CaseResult run_twin_case_impl(Runner& R, uint64_t case_seed, const std::s
             }
         }
         else
-            B->apply(op, rb);
+            guarded_apply(B.get(), op, rb);
         B->probe(pb);
 
         // ---- compare results ----
@@ -266,6 +266,14 @@ static CaseResult run_twin_case_impl(Runner& R, uint64_t case_seed, const std::s
         {
             ++g_twin_compared;
             bool same = skip_clean_cmp || res_equal(op, ra, rb);
+            if (exempt && op_is_range(op.kind))
+            {
+                // An update-only / erase *range* addressed to expired keys: the twins may legitimately have
+                // revived or dropped different elements even when the counts agree, and nothing observable
+                // says which.  C19 exempts exactly these results, so the comparison of this case ends here.
+                cr.lines.push_back(line + "  -> A " + res_to_text(op, ra) + " / B " + res_to_text(op, rb) + "  (exempt range on expired keys; case ends)");
+                break;
+            }
             if (!same)
             {
                 if (exempt)
